@@ -110,6 +110,14 @@ def _extract_input_object(
             value = node_fields[name].value
             coerced[target_name] = value_from_ast(value, field.type, variables)
 
+    field_map = type_.field_map
+    for name in node_fields:
+        if name not in field_map:
+            raise InvalidValue(
+                "Field %s is not defined by type %s" % (name, type_.name),
+                [node],
+            )
+
     return coerced
 
 
